@@ -1,1 +1,3 @@
+import H4.Props.C03
 import H4.Props.C05
+import H4.Props.C06
